@@ -42,7 +42,7 @@ STMTS = [
     "x = DC()", "x = DC(1, 2, 3)", "x = DC(a='s').b.append(1)", "x = Child[int](3).v + 'a'", "x: List[int] = ['a']", "x: Callable[[int], str] = two", "x: 'Undefined' = 1",
     "x: Dict[str, int, bytes] = {}", "x: Optional[int, str] = None", "x: Tuple[int, ...] = (1, 's')", "x: Union = 1", "x = [i for i in 3]", "x = {k: v for k, v in [1, 2]}",
     "x = (lambda a, b=1, *c, d, **e: a + d)(1)", "x = (lambda: y)()", "a, *b, c = 1, 2", "a, b = 1, 2, 3", "*a, = 1", "x = [*1, *'ab']", "x = {**1}", "x = f'{undefined_name!r:>{width}}'",
-    "x = f'{1 + \"a\"}'", "x = '%d %s' % (1,)", "x = '{} {}'.format(1)", "x = '%(a)s' % {'b': 1}", "if (n := 'a') > 1: pass", "x = (y := 5) + y", "x = [z := 1, z + 's']",
+    "x = f'{1 + \"a\"}'", "x = f'{None:>5}'", "x = f'{(1, 2):>8}'", "x = f'{Base:>3}'", "x = f'{[1]:x}{3:zz}{p:>{q}}'", "x = '%d %s' % (1,)", "x = '{} {}'.format(1)", "x = '%(a)s' % {'b': 1}", "if (n := 'a') > 1: pass", "x = (y := 5) + y", "x = [z := 1, z + 's']",
     "match 1:\n        case int(real=r):\n            x = r + 's'\n        case [a, *b] | {'k': a, **b}:\n            x = a\n        case Base(attr=3) | None:\n            x = 0\n        case _ if undefined_guard:\n            x = 1",
     "match DC(1):\n        case DC(a, b, c):\n            pass\n        case DC(q=1):\n            pass",
     "for i, j in [1, 2]: pass", "for i in 5: pass", "while 1:\n        break\n    else:\n        x = 1", "with 1 as z: pass", "with open('f') as f, f: pass", "try:\n        pass\n    except 5:\n        pass",
@@ -159,7 +159,9 @@ def values():
             NewTypeValue(NT), UnboundMethodValue("append", Composite(TypedValue(list))), UnboundMethodValue("nope", Composite(KnownValue(1)), "secondary"),
             DictIncompleteValue(dict, [KVPair(KnownValue("k"), TypedValue(int)), KVPair(TypedValue(str), TypeVarValue(T), is_many=True, is_required=False)]),
             MultiValuedValue([KnownValue(i) for i in range(12)]), MultiValuedValue([KnownValue(c) for c in "abcdefghijkl"] + [KnownValue(None)]), KnownValue({}), KnownValue({1, 2}),
-            KnownValue((1, [2]))]
+            KnownValue((1, [2])),
+            DictIncompleteValue(dict, [KVPair(KnownValue("a"), TypedValue(int)), KVPair(KnownValue([1, 2]), TypedValue(int))]),
+            DictIncompleteValue(dict, [KVPair(KnownValue({}), TypedValue(int))]), TypedDictValue({"a": TypedDictEntry(TypedValue(int))})]
     return base, {T: TypedValue(int), U: KnownValue(True), W: TypedValue(str)}
 
 
